@@ -1,7 +1,7 @@
 /-
   Line-protocol driver for the zip model (prefix `zip.`).  Decode, call the model, encode.
   File token:   <path>:<mode r|d|s|i|e>:<size>:<content>:<g 0|1>     (hex path/content)
-  Entry token:  <name>:<declared size>:<content>
+  Entry token:  <name>:<declared size>:<content>[:<header mode letter>]
   The executable environment plugs module.CheckFilePath / module.Check / CanonicalVersion from the
   module and semver models and `strToFold` over the committed fold table.
 -/
@@ -47,6 +47,13 @@ def parseFiles (s : String) : Option (List FileInfo) :=
 def parseEntry (tok : String) : Option Entry :=
   match tok.splitOn ":" with
   | [n, sz, c] => do
+    let n ← hx n
+    let sz ← sz.toNat?
+    let c ← hx c
+    pure ⟨n, sz, c⟩
+  -- optional 4th field: mode bits of the header.  zip.go never looks at them (a directory entry is a
+  -- name with a trailing slash), so the model's `Entry` has no such field and the token is dropped.
+  | [n, sz, c, _mode] => do
     let n ← hx n
     let sz ← sz.toNat?
     let c ← hx c
